@@ -360,20 +360,22 @@ def specs(tier: str):
         out.append(_spec("dot2", two, 3, "order_invariant", hi=1))
     else:
         for f in (0, 1):
-            out.append(_spec("dot2", {"a": 3, "b": 2}, 6, "exact", hi=3, cond=3000, first=f))
-            out.append(_spec("cart2", {"a": 3, "b": 2}, 6, "exact", hi=3, cond=3000, first=f))
+            out.append(_spec("dot2", {"a": 3, "b": 2}, 5, "exact", hi=3, cond=3000, first=f))
+            out.append(_spec("cart2", {"a": 3, "b": 2}, 5, "exact", hi=3, cond=3000, first=f))
             out.append(_spec("dot2", two, 5, "exact", hi=3, cond=3000, first=f))
             out.append(_spec("cart2", two, 5, "exact", hi=3, cond=3000, first=f))
             out.append(_spec("dot_bcast", {"a": 3}, 5, "exact", hi=3, cond=3000, first=f))
-            out.append(_spec("dot_dot_bcast", {"a": 2, "b": 2}, 6, "exact", cond=3000, first=f))
-            out.append(_spec("dot_cart_bcast", {"a": 2, "b": 2}, 6, "exact", cond=3000, first=f))
-            out.append(_spec("dot_bcast", {"a": 2}, 6, "exact", prefix=MIXED, tagname="_mixedparents", cond=3000, first=f))
+            out.append(_spec("dot_bcast", {"a": 2}, 5, "exact", prefix=MIXED, tagname="_mixedparents", cond=3000, first=f))
         for f in (0, 1, 2):
-            out.append(_spec("dot3", {"a": 2, "b": 2, "c": 1}, 6, "exact", cond=3000, first=f))
-            out.append(_spec("cart3", {"a": 2, "b": 2, "c": 1}, 5, "exact", cond=3000, first=f))
-            out.append(_spec("dot_dot_bcast", {"a": 2, "b": 2}, 5, "exact", prefix=MIXED2, tagname="_mixedparents", cond=3000, first=f))
-            out.append(_spec("dot_cart_bcast", {"a": 2, "b": 2}, 5, "exact", prefix=MIXED2, tagname="_mixedparents", cond=3000, first=f))
+            out.append(_spec("dot_dot_bcast", {"a": 2, "b": 2}, 4, "exact", hi=1, cond=3000, first=f))
+            out.append(_spec("dot_cart_bcast", {"a": 2, "b": 2}, 4, "exact", hi=1, cond=3000, first=f))
+            out.append(_spec("dot_dot_bcast", {"a": 2, "b": 1}, 5, "exact", cond=3000, first=f))
+            out.append(_spec("dot_cart_bcast", {"a": 2, "b": 1}, 5, "exact", cond=3000, first=f))
+            out.append(_spec("dot3", {"a": 2, "b": 2, "c": 1}, 4, "exact", hi=1, cond=3000, first=f))
+            out.append(_spec("cart3", {"a": 2, "b": 2, "c": 1}, 4, "exact", hi=1, cond=3000, first=f))
+            out.append(_spec("dot_dot_bcast", {"a": 2, "b": 2}, 4, "exact", prefix=MIXED2, hi=1, tagname="_mixedparents", cond=3000, first=f))
+            out.append(_spec("dot_cart_bcast", {"a": 2, "b": 2}, 4, "exact", prefix=MIXED2, hi=1, tagname="_mixedparents", cond=3000, first=f))
         out.append(_spec("dot2", two, 4, "exact", lo=8, hi=11, tagname="_8to11", cond=3000))
         out.append(_spec("cart2", two, 4, "exact", lo=8, hi=11, tagname="_8to11", cond=3000))
-        out.append(_spec("dot2", {"a": 3, "b": 2}, 5, "order_invariant", cond=3000))
+        out.append(_spec("dot2", {"a": 3, "b": 2}, 4, "order_invariant", hi=2, cond=3000))
     return out
